@@ -290,7 +290,8 @@ class Runner:
             if f.sig in open_keys:
                 self.stats.excluded[f.sig] += 1
                 continue
-            if f.sig in seen_sigs and len(self.violations) >= 5:
+            if f.sig in seen_sigs:
+                self.stats.extra["further_failures_same_signature"] += 1
                 continue
             c = self.confirm(f)
             if c is None:
